@@ -13,7 +13,7 @@
 // Oracles (all from the statement; weaker readings are written where they are taken, see model_test.go):
 //   reservation-granted/{over-relayed-connection,acl-denied}, reservation-cap-exceeded/{total,per-ip,per-asn,
 //   after-refused-refresh}, reservation-refused-below-caps, reservation-denied-without-cause, voucher-invalid,
-//   reservation-expiry-wrong, reservation-lost, connect-without-reservation/{never-reserved,after-disconnect,
+//   reservation-expiry-wrong, reservation-lost, connect-admitted-without-reservation/*, connect-without-reservation/{never-reserved,after-disconnect,
 //   after-expiry-and-collection}, connect-over-relayed-connection, connect-acl-denied, connect-denied-without-cause,
 //   connect-ok/{malformed-request,stop-handshake-failed}, circuit-cap-exceeded/{source,destination,concurrent},
 //   circuit-refused-below-cap, data-limit-exceeded/{forward,backward}, data-delivered-mismatch/*, data-corrupted/*,
@@ -27,6 +27,13 @@
 // RESERVE(c1 from ip B) ok; c1 opens a new connection from ip A before the old one closes (the relay never sees it
 // disconnected) and refreshes -> RESERVATION_REFUSED; RESERVE(c2 from ip B) -> OK while c1's reservation made from ip B
 // is still live and still serves CONNECTs. Silent on the current tree; re-appears when the fix is reverted (below).
+//
+// GENUINE DEFECT on the tree of this writing (reported to the lead, class
+// C11/connmgr-tag-left/relay-reservation/limited-connection-remains): X reaches R through a LIMITED R2, forces a direct
+// connection, RESERVE(X) over it -> OK; X closes the direct connection, the relayed one stays: Relay.disconnected drops
+// the reservation (CONNECT to X => NO_RESERVATION) but never calls UntagPeer, the connection manager forgets tags only
+// with the peer's last connection, gc() only untags peers still in Relay.rsvp: X keeps "relay-reservation"=10 without
+// reservation. Repair: UntagPeer(p, "relay-reservation") next to delete(r.rsvp, p) in disconnected.
 //
 // MUTATIONS TRIED (one at a time, on a private copy of the instrumented overlay, 8 workers, <= 45 s each) and the
 // classes that reported them:
@@ -53,6 +60,8 @@
 //   refresh does not extend the expiry in Relay.rsvp               reservation-lost (1 worker of 8 in 45 s)
 //   fix 45e9891 reverted (cleanupPeer before the cap checks)       reservation-cap-exceeded/after-refused-refresh
 //   panic placed at the "cannot write OK reply" exit (reach test)  panic
+//   disconnected(): early return on Connectedness != NotConnected  connect-admitted-without-reservation/after-disconnect (seeded by the
+//     (peer with only a limited relayed connection keeps its slot)  lead; needed X holding a direct AND a relayed connection)
 // Not caught, equivalent: deadline not set on the destination stream only (the source stream's deadline ends the
 // circuit at the same instant and the reset is propagated to both ends).
 package c11
@@ -93,6 +102,10 @@ func (w *world) exec(op opT) string {
 		return w.doCloseCirc(op)
 	case opBatch:
 		return w.doBatch(op)
+	case opXDirect:
+		return w.doXDirect(op)
+	case opXDropDirect:
+		return w.doXDropDirect(op)
 	}
 	return "?"
 }
